@@ -38,6 +38,7 @@ class Frame:
         self.sites = []      # (line, description, ok)
         self.fresh_fields = {}  # ("fresh", k) -> {"graph": set, "bbs": set}
         self.returns = []
+        self.contains = {}   # container region -> regions of the objects stored in it
 
     # ---- regions
     def arg_regions(self, regs):
@@ -70,6 +71,7 @@ class Frame:
                     out.add(("arg.attrdict", r[1]))   # g.nodes[n]: the attribute dict of a node of the argument
                 elif r[0] == "fresh":
                     out.add(r)
+                    out |= self.contains.get(r, set())
                 # a value read out of an attribute dict / the registry (str, bool, BlackBox) is immutable: untracked
             return out
         if isinstance(e, ast.Call):
@@ -115,6 +117,17 @@ class Frame:
         if isinstance(f, ast.Attribute):
             recv = self.eval(f.value, env)
             name = f.attr
+            if name in ("append", "add", "insert", "put", "extend", "update") and recv and all(r[0] == "fresh" and r not in self.fresh_fields for r in recv):
+                stored = set()
+                for a in e.args:
+                    stored |= self.eval(a, env)
+                for r in recv:
+                    self.contains.setdefault(r, set()).update(stored)
+            if name in ("get", "pop", "values", "items") and any(r in self.contains for r in recv):
+                out = set()
+                for r in recv:
+                    out |= self.contains.get(r, set())
+                return out
             if name in CIRCUIT_MUTATORS and any(r[0] in ("arg", "fresh") for r in recv) and not self._is_module(f.value):
                 circ = {r for r in recv if r[0] == "arg"}
                 # a mutator applied to a circuit allocated here mutates that circuit's graph/registry regions
@@ -186,6 +199,9 @@ class Frame:
                 self.assign(t, regs, env, node)
         elif isinstance(tgt, ast.Subscript):
             base = self.eval(tgt.value, env)
+            for r in base:
+                if r[0] == "fresh" and r not in self.fresh_fields and regs:
+                    self.contains.setdefault(r, set()).update(regs)
             if any(r[0] in ("arg.attrs", "arg.attrdict", "arg.bbs", "arg.graph", "view") for r in base) or any(r[0] == "fresh" for r in base):
                 self.mutate(node, base, "item store")
         elif isinstance(tgt, ast.Attribute):
@@ -223,7 +239,10 @@ class Frame:
         elif isinstance(s, (ast.For, ast.While)):
             if isinstance(s, ast.For):
                 it = self.eval(s.iter, env)
-                self.assign(s.target, {r for r in it if r[0] in ("arg.attrs",)} and set(), env, s)
+                inside = set()
+                for r in it:
+                    inside |= self.contains.get(r, set())
+                self.assign(s.target, inside, env, s)
             else:
                 self.eval(s.test, env)
             for _ in range(3):  # fixpoint of the (finite, monotone) region maps
@@ -277,6 +296,14 @@ class Frame:
             obligations.append((f"frame:{what}", ok, bad))
         for line, regs in self.returns:
             leaked = set()
+            todo, seen_r = list(regs), set()
+            while todo:  # objects reachable through returned containers count as returned
+                r_ = todo.pop()
+                if r_ in seen_r:
+                    continue
+                seen_r.add(r_)
+                todo.extend(self.contains.get(r_, ()))
+            regs = seen_r
             for r in regs:
                 if r[0] in ("arg.graph", "arg.bbs", "arg.attrs", "arg.attrdict", "view"):
                     leaked.add(r)
